@@ -31,35 +31,43 @@ META = {
     "level": "exploration",
     "rule": (
         "Hypothesis-generated histories (<= 12 ops) over sources {file path, caller's PIL image, URL served by "
-        "a per-worker loopback http.server; plus 404 / non-image body / failing constructor}, animated GIF/APNG/"
-        "WEBP (2-5 frames, <= 8x8 px) and still images, styles block/kitty/iterm2 with generated format specs "
-        "(padding, alignment, alpha, kitty L/W/z/m/c, iterm2 L/W/A/m/c), repeat in {1,2,3,-1}, cached in "
-        "{False,True,1,n,n+1,100}; ops: str, format, draw (stdout captured, sleep patched), ImageIterator()/iter(), "
-        "next xk, iterator seek (valid, out of range, before start, after close), early close, abandonment "
-        "(del + gc), image.seek, image.close, `with image:`, set_size / dynamic size, terminal resize; optionally one "
-        "fault: the k-th call (k chosen from a fault-free dry run of the same history) of PIL convert / resize / "
-        "save / tobytes / frombytes / alpha_composite / getdata during one op raises RuntimeError or OSError before "
-        "or after the real call. Oracle: model of pass/position/loop_no/tell from the ImageIterator docs; frames == "
-        "format(twin.seek(k), spec with absolute padding and A->W); resource invariants after every op and after a "
-        "final abandon-everything epilogue. Non-trivial = history with an early close / abandonment, a fired fault "
-        "or a URL source; distinct by (source kind, style, op-kind sequence, fault site)."
+        "a per-worker loopback http.server; plus 404 / non-image body / failing constructor}, animated GIF/WEBP "
+        "(2-5 frames, <= 8x8 px, opaque or with transparent/semi-transparent pixels) and still images, styles "
+        "block/kitty/iterm2 with generated format specs (padding, alignment, alpha, kitty L/W/z/m/c, iterm2 "
+        "L/W/A/m/c), repeat in {1,2,3,-1}, cached in {False,True,1,n,n+1,100}; ops: str, format, draw (stdout "
+        "captured, sleep patched), ImageIterator()/iter() incl. rejected arguments, next xk, iterator seek (valid, "
+        "out of range, before start, after close), early close, abandonment (del + gc), image.seek, image.close, "
+        "`with image:`, set_size / dynamic size, terminal resize; optionally one fault: the k-th call (k chosen from "
+        "a fault-free dry run of the same history, which is itself fully checked) of PIL convert / resize / save / "
+        "tobytes / frombytes / alpha_composite / getdata during one op raises RuntimeError or OSError before or after "
+        "the real call. Oracle: model of pass/position/loop_no/tell from the ImageIterator docs; frames == "
+        "format(twin.seek(k), spec with absolute padding and A->W); resource invariants (image-file descriptors, "
+        "library temp dir, caller's PIL image, size setting) after every op and after a final abandon-everything "
+        "epilogue. Non-trivial = history with an early close / abandonment, a fired fault or a URL source; "
+        "distinct by (source kind, style, op-kind sequence, fault site)."
     ),
     "assumptions": [
         "open image files are observed as /proc/self/fd entries that resolve into the harness image directory or "
-        "the library's private temp dir (sockets of the loopback server / requests are not counted)",
+        "the library's private temp dir (sockets of the loopback server / requests are not counted); descriptors "
+        "held by the caller's own PIL image (its .fp/._fp) are subtracted",
         "file-descriptor counts are taken after the harness has released exception objects (CPython reference "
         "counting closes a file whose last reference is dropped); in addition no ResourceWarning('unclosed file') "
-        "for an image file may be emitted by a successfully completed str/format/still draw, by next(), or by "
-        "close() of a started iterator. Known and tolerated (counted, not judged): a never-started ImageIterator "
-        "(incl. the throw-away generator built by every animated draw()) and a render that failed half-way leave "
-        "their file to the garbage collector",
+        "for an image file may be emitted by construction, by a successfully completed str/format/still draw, by "
+        "next(), or by close()/collection of a started iterator. Tolerated (counted as gc_closed_tolerated, not "
+        "judged): a never-started ImageIterator (incl. the throw-away generator built by every animated draw()) "
+        "and a render that failed half-way leave their file to the garbage collector",
         "terminal-relative padding in an iterator's format specifier is resolved against the terminal size at the "
         "time the iterator is constructed",
         "iterm2 '+A' inside an iterator: the frame must equal the '+W' frame, or have the same control data and a "
-        "payload that is the BOX-upscaled '+W' payload (the implementation does not apply WHOLE's minimal-size "
-        "optimization on this path)",
+        "payload equal (within 3 levels) to the BOX-rescaled '+W' payload (the implementation does not apply WHOLE's "
+        "minimal-size optimization on this path)",
         "after a failed next() the image's seek position is unspecified (re-read, must be a valid frame number)",
         "terminal resizes change columns/rows only (cell size, identity and colours are fixed per history)",
+        "APNG sources are excluded: Pillow 11.1 itself raises 'APNG contains frame sequence errors' when an APNG is "
+        "rewound from a middle frame and sought forward again (pure-PIL reproduction), which any backward seek hits",
+        "after image.close() an iterator of that image may keep yielding (correct) frames, stop, or raise "
+        "TermImageError; every violation observed after the image was closed while one of its iterators was still "
+        "open carries signature ctx=image_closed_before_iterator",
     ],
 }
 
@@ -1039,6 +1047,9 @@ def _do_nexts(w, e, k, inj, armed, fired):
 
 # ====================================================================================== history runner
 
+_RUNS = [0]
+
+
 def run_history(case, rec, fault=None, count_site=None):
     """Runs the history once.  fault = (site, op index, call index, exc name, when) or None.
     Returns (world, per-op call counts of count_site)."""
@@ -1053,6 +1064,9 @@ def run_history(case, rec, fault=None, count_site=None):
     counts = []
     # leftovers of an earlier (failed) case in this process must not be blamed on this one
     gc.collect()
+    _RUNS[0] += 1
+    if _RUNS[0] % 64 == 0:
+        gc.freeze()  # Hypothesis' growing search tree would make every later gc.collect() slower
     for name in os.listdir(C._TEMP_DIR):
         try:
             os.remove(os.path.join(C._TEMP_DIR, name))
@@ -1145,6 +1159,9 @@ CLAUSES = [
         check_history,
         cases,
         budget={"quick": 4000, "thorough": 60000},
-        floors={},
+        floors={"src:file": 0.15, "src:pil": 0.06, "src:url": 0.12, "still": 0.05, "style:block": 0.15,
+                "style:kitty": 0.15, "style:iterm2": 0.15, "fault_fired": 0.07, "fault_in_next": 0.04,
+                "early_close": 0.05, "abandon": 0.04, "exhausted": 0.04, "cached_multi_pass": 0.04, "seek": 0.04,
+                "size_change_live": 0.04, "animated_draw": 0.04, "ctor_failure": 0.06},
     ),
 ]
